@@ -99,6 +99,20 @@ Theorem C01_scores_history_content :
       sc_unstripe C r = Ok (map (score_def F32.add F32.zero (c_K c - 1) (c_pssm c) s) (seq 0 (L + 1 - M))).
 Proof. intros C h old c s mid HC HC16. apply scores_history_content; auto. Qed.
 
+(* a sub-range call (a < b <= R, L >= M) that ends any history returns rows a..b of the full scan of
+   THIS call's sequence and motif, with max_index = L - M + 1 *)
+Theorem C01_scores_history_sub_range :
+  forall (C : nat) (h : list hop) (old : sscores f32) (c : call) (s : list nat) (a b : nat) (mid : sscores f32),
+    0 < C -> C mod 16 = 0 ->
+    sc_wf C old -> Forall (hop_ok C) h -> call_on C c s -> f_hrun C h old = Ok mid ->
+    length (c_pssm c) <= length s -> a < b -> b <= seq_R C (length s) ->
+    exists full sub,
+      generic_score F32.add F32.zero C (c_pssm c) (c_seq c) = Ok full /\
+      f_hstep C (HRowsInto c a b) mid = Ok sub /\
+      sc_mat sub = firstn (b - a) (skipn a (sc_mat full)) /\
+      sc_max sub = length s + 1 - length (c_pssm c).
+Proof. intros C h old c s a b mid HC HC16. apply scores_history_sub_range; auto. Qed.
+
 (* -0.0 cells: the defined score (sum from +0.0, left to right) is never -0.0, whatever the cells
    are -- a motif of -0.0 cells scores +0.0 on every pipeline (the SSE2 kernel adds K - 1 masked
    +0.0 per row, the AVX2 kernels start from setzero).  A kernel that starts its accumulator from
